@@ -14,6 +14,7 @@ package main
 
 import (
 	"fmt"
+	"os"
 	"go/constant"
 	"go/token"
 	"go/types"
@@ -293,6 +294,9 @@ func (fe *factEval) eval(v ssa.Value) (bool, bool) {
 		a, ok := fe.w.atomOf(v)
 		fe.w.noHelperAtoms = false
 		fe.w.inlineHelpers = savedInl
+		if os.Getenv("RIGOCHECK_DEBUG") == "fe" {
+			fmt.Fprintln(os.Stderr, "FE", variant, ok, a, "|", fe.w.Canon(v))
+		}
 		if !ok {
 			continue
 		}
@@ -336,6 +340,15 @@ func (w *World) runUnder(fn *ssa.Function, base func(ssa.Value) (bool, bool), ev
 	paths, complete := w.enumPaths(fn, fe.eval, event, 4000)
 	w.branchMarkers = saved
 	o := outcome{complete: complete, allConsulted: len(fe.used) == len(facts)}
+	if os.Getenv("RIGOCHECK_DEBUG") == "ru:"+fn.Name() {
+		for _, p := range paths {
+			pos := "-"
+			if p.Ret != nil {
+				pos = w.InstrPos(p.Ret)
+			}
+			fmt.Fprintln(os.Stderr, "RU", w.FName(fn), facts, p.Term, pos, p.Events)
+		}
+	}
 	for _, p := range paths {
 		switch p.Term {
 		case "ok", "unknown":
